@@ -405,4 +405,21 @@ func c01ManyEvalRules(c *Ctx) {
 		}
 	}
 	c.Nontrivial("many-eval-rules")
+	// one eval() text shared by two policy lines and referring to a field of the line it stands in: the text is
+	// evaluated against each line anew
+	ms2 := NewMSpec().AddR("r", "sub", "obj", "act").AddP("p", "sub_rule", "dept", "obj", "act").AddE("e", effAllow).
+		AddM("m", "r", "p", And(Eval(PTok(0)), Eq(RTok(1), PTok(2)), Eq(RTok(2), PTok(3))))
+	shared := Eq(Attr(0, "Dept"), PTok(1))
+	st := shared.Text("r", "p", ms2.R["r"], ms2.P["p"])
+	s2 := StartCase(c, ms2, CaseOpts{EvalTab: map[string]*Ex{st: shared}})
+	if s2 == nil {
+		return
+	}
+	s2.Do(c, EOp{Kind: "adds", Sec: "p", PType: "p", Ex: true, Rules: [][]string{{st, "hr", "/hr/files", "read"}, {st, "eng", "/eng/files", "read"}, {st, "ops", "/eng/files", "read"}}})
+	for _, dept := range []string{"hr", "eng", "ops", "sales"} {
+		for _, obj := range []string{"/hr/files", "/eng/files"} {
+			s2.Do(c, EOp{Kind: "enfx", Req: []V{{Kind: "o", O: map[string]Atom{"Dept": {S: dept}}}, VS(obj), VS("read")}})
+			c.Evals++
+		}
+	}
 }
